@@ -129,6 +129,8 @@ func checkC09(c *Ctx) {
 			c12BufferSize(c, "R9.13", roles)
 		}
 	}
+	c.Rule("R9.14", "a cloned encoder shares no pooled buffer with its source (per-entry clones of one logger run concurrently: a shared reflection scratch buffer is a data race, and is returned to the pool while its first owner still holds it)", 1)
+	c8CloneOwnership(c, "R9.14")
 	c.Rule("R9.9", "package-level tables are read-only after initialisation (or written under a lock)", 1)
 	c9GlobalTables(c, "R9.9")
 	c.Rule("R9.8", "no object is touched after it went back to its pool (the next owner may be another goroutine), and derived handlers/cores never share a slice tail with their parent", 8)
